@@ -1,5 +1,6 @@
 import DspVerif.Props.C07
 import DspVerif.Gen.StepsFir
+import DspVerif.Gen.CtorFir
 import DspVerif.Lib.RealFn
 import DspVerif.Lib.GenBridge
 /-!
@@ -237,4 +238,41 @@ theorem firRProcess_two (s : Fir.State ℝ) (a b : Array ℝ) (hd : s.d.size = s
   exact firRProcess_eq _ b hd'
 
 end
+/-! BEGIN steps3 constructors -/
+/-! ## Constructor `FirFilter<T>::FirFilter(const base_array<T>& h)` (regenerated: `Gen/CtorFir.lean`)
+
+`_h(h)` (a copy of the taps), `_d(h.size() - 1)` (zero-filled history of `nh - 1` samples). -/
+
+noncomputable section
+
+/-- **bridge, `FirFilter<real_t>` constructor:** for EVERY tap vector (the empty one included: `arrNew` of `-1` cells is empty, where
+C++ throws `std::length_error`) the generated constructor leaves the model's `Fir.init`: "started from rest" -/
+theorem firRCtor_eq (h : Array ℝ) : Gen.firRCtor h = toGenR (Fir.init (0 : ℝ) h) := by
+  have h1 : ((h.size : Int) - 1).toNat = h.size - 1 := by omega
+  simp [Gen.firRCtor, toGenR, Fir.init, Gen.arrNew, Gen.arrSize, Gen.zeroR, h1]
+
+theorem firCCtor_eq (h : Array (Cx ℝ)) : Gen.firCCtor h = toGenC (Fir.init (0 : Cx ℝ) h) := by
+  have h1 : ((h.size : Int) - 1).toNat = h.size - 1 := by omega
+  simp [Gen.firCCtor, toGenC, Fir.init, Gen.arrNew, Gen.arrSize, gzeroC_eq, h1]
+
+/-- **T07.1 from the GENERATED constructor through the GENERATED `process`, `FirFilter<real_t>`:** for every tap vector with at
+least one tap, constructing by the regenerated constructor and calling the regenerated `process` returns
+`y[i] = Σ_{k ≤ i} h[k]·x[i-k]` (and as many outputs as inputs). -/
+theorem gen_fir_from_ctor_real (h x : Array ℝ) (hh : 1 ≤ h.size) :
+    ∃ st y, Gen.firRProcess (Gen.firRCtor h) x = .ok (st, y) ∧ y.size = x.size ∧
+      ∀ i, i < x.size → y.getD i 0 = ∑ k ∈ Finset.range h.size, if k ≤ i then h.getD k 0 * x.getD (i - k) 0 else 0 := by
+  rw [firRCtor_eq]
+  exact gen_fir_eq_real h x hh
+
+/-- … and `FirFilter<cmplx_t>` -/
+theorem gen_fir_from_ctor_cmplx (h x : Array (Cx ℝ)) (hh : 1 ≤ h.size) :
+    ∃ st y, Gen.firCProcess (Gen.firCCtor h) x = .ok (st, y) ∧ y.size = x.size ∧
+      ∀ i, i < x.size → Cx.toC (y.getD i 0) =
+        ∑ k ∈ Finset.range h.size, if k ≤ i then (starRingEnd ℂ) (Cx.toC (h.getD k 0)) * Cx.toC (x.getD (i - k) 0) else 0 := by
+  rw [firCCtor_eq]
+  exact gen_fir_eq_cmplx h x hh
+
+end
+/-! END steps3 constructors -/
+
 end Dsp.C07Gen
